@@ -281,6 +281,65 @@ def tested_some(ctx, bb, l):
     return False
 
 
+SAFE_STR_BOUNDS = ("::find", "::rfind", "::len", "::char_indices", "::match_indices", "::rmatch_indices", "::unwrap_or_default",
+                   "::unwrap_or", "::unwrap", "::map", "::clone", "::deref", "::as_str", "::borrow", "::as_ref")
+
+
+def range_slice_discharge(ctx, f, bb, t, cont, range_local):
+    """Discharge of `x[a..b]` with computed bounds.  Strings: every computed bound must come from boundary-producing
+    searches on a string (find/rfind/len/char_indices...), which yield char boundaries within the string.  Other
+    sequences: every computed bound must be compared with len(x) on a dominating branch (bound <= len side) and, when
+    both bounds are computed, start <= end must be tested too.  Returns (how | None, why-not)."""
+    fl = ctx.flow
+    bounds = []
+    for bb2, i2, s2 in fl.agg_defs.get(range_local, []) if range_local is not None else []:
+        bounds = list(s2["rv"]["ops"])
+    if not bounds:
+        return None, "the range could not be recovered"
+    var = [o for o in bounds if op_int(o) is None]
+    if any(op_int(o) not in (None, 0) for o in bounds) and not var:
+        return None, "constant non-zero bounds without a length proof"
+    is_str = "str" in cont.lower()
+    if is_str:
+        for o in var:
+            l = op_local(o)
+            if l is None:
+                return None, "a bound is not a local"
+            src = fl.back_pure([l], stop=lambda x: 0 < x <= f.argc)
+            callees = {(callee_of(tt) or "?") for x in src for _, tt in fl.call_defs.get(x, [])}
+            bad = sorted(c for c in callees if not any(c.endswith(sfx) or sfx + ">" in c for sfx in SAFE_STR_BOUNDS))
+            arith_only = all(s3["rv"]["k"] in ("use", "bin", "cast", "ref") for x in src for _, _, s3 in f.stmts() if fl.node(s3["pl"]) == x)
+            from_search = any(c.endswith("::find") or c.endswith("::rfind") or c.endswith("::len") or "indices" in c for c in callees)
+            if bad or not from_search or not arith_only:
+                return None, "a bound is not derived from a search on the string (find / rfind / len / char_indices): computed from %s" % (
+                    bad or "columns / arithmetic")
+        return "rangeslice: string bounds come from find/rfind/len searches (char boundaries inside the string)", ""
+    # sequences: bound compared with the container's length on a dominating branch
+    ckey = ctx.ld.key_of_operand(t["args"][0])
+    doms = f.dominators().get(bb, set())
+    tested = set()
+    for d in doms:
+        td = f.term(d)
+        if td["k"] != "switch":
+            continue
+        dl = op_local(td["discr"])
+        if dl is None:
+            continue
+        for _, _, s3 in f.stmts():
+            if s3["pl"]["l"] == dl and s3["rv"]["k"] == "bin" and s3["rv"]["op"] in ("Le", "Lt", "Ge", "Gt"):
+                a, b = op_local(s3["rv"]["a"]), op_local(s3["rv"]["b"])
+                ka = ctx.ld.len_source(a) if a is not None else None
+                kb = ctx.ld.len_source(b) if b is not None else None
+                for bound in var:
+                    bl = op_local(bound)
+                    same = lambda x: x is not None and bl is not None and (x == bl or bl in fl.back_pure([x]) or x in fl.back_pure([bl]))
+                    if (kb == ckey and ckey is not None and same(a)) or (ka == ckey and ckey is not None and same(b)):
+                        tested.add(bl)
+    if all(op_local(o) in tested for o in var):
+        return "rangeslice: every computed bound is compared with the sequence's length on a dominating branch", ""
+    return None, "no dominating comparison of the computed bound(s) with the sequence's length"
+
+
 def check_requirement(prog, rq):
     """Machine-checked precondition attached to a reviewed table line.  Returns None when it holds, else why not.
     kind arg-unaltered: in function `fn`, the argument `arg` of the call whose callee ends with `callee_suffix` is the
@@ -506,8 +565,13 @@ def run(tier="quick", replay=None):
                         for bb2, i2, s2 in fl.agg_defs.get(al, []):
                             if s2["rv"].get("adt", "").endswith("RangeFrom") and s2["rv"]["ops"]:
                                 start = op_int(s2["rv"]["ops"][0])
-                    if start is None or "RangeFrom" not in ity or "str" in cont.lower():
-                        excluded["variable/str range slicing"] += 1
+                    is_str = cont.strip() in ("str", "std::string::String", "String")
+                    if start is None or "RangeFrom" not in ity or is_str:
+                        how, why = range_slice_discharge(ctx, f, bb, t, "str" if is_str else "seq", al)
+                        key = site_key(f, "rangeslice", ("str" if is_str else "seq") + "[a..b]")
+                        settle(f, key, site, "rangeslice", how,
+                               "%s slices a %s with a computed range and %s: panics (range out of bounds%s) for some inputs" % (
+                                   f.path, "string" if is_str else "sequence", why, " / not a char boundary" if is_str else ""))
                         continue
                     key = site_key(f, "slice", "%s[%d..]" % (desc, start))
                     desc = describe_place_name(f, rkey)
